@@ -16,14 +16,18 @@ func msDur(ms int64) time.Duration { return time.Duration(ms) * time.Millisecond
 var smallSizes = []int{0, 1, 2, 255, 256, 257, 300, 1000, chunkSize - 1, chunkSize, chunkSize + 1, 2 * chunkSize, 2*chunkSize + 1, 3*chunkSize - 1}
 var bigSizes = []int{bucketBytes - 1, bucketBytes, bucketBytes + 1, bucketBytes + chunkSize + 1, 2*bucketBytes + 1, 3*bucketBytes - 7}
 
+// workspace ids: small ones, and ids that differ from them (and from each other) in the cluster bits only
+// (bit 47 and above): the same base workspace in clusters 0, 1 and 2 are three different BLOB owners
+var wsPool = []uint64{1, 2, 255, 256, 131072, 1<<47 + 1, 2<<47 + 1, 1<<47 + 131072, 2<<47 + 131072, 65535<<47 + 256}
+
 func genKey(r *kit.Rng, used map[string]bool) keySpec {
 	for {
 		var k keySpec
 		if r.Chance(3, 5) {
-			k = keySpec{Persistent: true, App: uint32(1 + r.Intn(3)), WS: kit.Pick(r, []uint64{1, 2, 255, 256, 140737488486400}), ID: kit.Pick(r, []uint64{1, 2, 256, 65536, 200001})}
+			k = keySpec{Persistent: true, App: uint32(1 + r.Intn(3)), WS: kit.Pick(r, wsPool), ID: kit.Pick(r, []uint64{1, 2, 256, 65536, 200001})}
 		} else {
 			// SUUIDs that are prefixes of each other and that end in bytes looking like bucket numbers
-			k = keySpec{App: uint32(1 + r.Intn(3)), WS: kit.Pick(r, []uint64{1, 2, 256}), SUUID: kit.Pick(r, []string{"a", "ab", "abc", "a\x01\x00\x00\x00\x00\x00\x00\x00", "a\x00\x00\x00\x00\x00\x00\x00\x00", "zz", "\x01"})}
+			k = keySpec{App: uint32(1 + r.Intn(3)), WS: kit.Pick(r, wsPool), SUUID: kit.Pick(r, []string{"a", "ab", "abc", "a\x01\x00\x00\x00\x00\x00\x00\x00", "a\x00\x00\x00\x00\x00\x00\x00\x00", "zz", "\x01"})}
 		}
 		s := k.coq()
 		if !used[s] {
@@ -31,6 +35,20 @@ func genKey(r *kit.Rng, used map[string]bool) keySpec {
 			return k
 		}
 	}
+}
+
+// twinKey: the key k in another cluster - same application, base workspace and BLOB id / SUUID,
+// different cluster bits of the workspace id. ok=false when every twin tried is taken.
+func twinKey(r *kit.Rng, k keySpec, used map[string]bool) (keySpec, bool) {
+	for i := 0; i < 8; i++ {
+		t := k
+		t.WS = k.WS&(1<<47-1) | uint64(kit.Pick(r, []uint64{0, 1, 2, 3, 65535}))<<47
+		if s := t.coq(); !used[s] {
+			used[s] = true
+			return t, true
+		}
+	}
+	return k, false
 }
 
 func genWrite(r *kit.Rng, k keySpec, at int64, tier string, allowBig bool) *writeSpec {
@@ -83,6 +101,11 @@ func genScenario(r *kit.Rng, backend, tier string, allowBig bool) *scenario {
 	nw := 1 + r.Intn(3)
 	for i := 0; i < nw; i++ {
 		k := genKey(r, used)
+		if i > 0 && r.Chance(1, 3) {
+			if t, ok := twinKey(r, keys[0], used); ok {
+				k = t
+			}
+		}
 		keys = append(keys, k)
 		at += int64(r.Intn(3)) * 1000
 		w := genWrite(r, k, at, tier, allowBig && i == 0)
@@ -109,6 +132,12 @@ func genScenario(r *kit.Rng, backend, tier string, allowBig bool) *scenario {
 		}
 	}
 	never := genKey(r, used)
+	if r.Bool() {
+		// never written, but its twin in another cluster is
+		if t, ok := twinKey(r, kit.Pick(r, keys), used); ok {
+			never = t
+		}
+	}
 	for _, k := range append(keys, never) {
 		sc.Ops = append(sc.Ops, &op{R: &readSpec{AtMs: at, Key: k}})
 	}
